@@ -244,8 +244,27 @@ func (e *executor) processInput(workflow *Workflow) (schema.Scope, error) {
 		return nil, &ErrInvalidWorkflow{fmt.Errorf(
 			"invalid workflow input section (the root object %q is not one of the objects)", typedInput.Root())}
 	}
-	typedInput.ApplySelf()
+	if err := linkReferences(func() { typedInput.ApplySelf() }); err != nil {
+		return nil, &ErrInvalidWorkflow{fmt.Errorf("invalid workflow input section (%w)", err)}
+	}
 	return typedInput, nil
+}
+
+// linkReferences runs a function that links schema references to their objects. The schema library
+// panics with a BadArgumentError when a reference names an object that does not exist; for a workflow
+// file that is an authoring mistake, so it is turned into an error.
+func linkReferences(link func()) (err error) {
+	defer func() {
+		if r := recover(); r != nil {
+			badArgument, ok := r.(schema.BadArgumentError)
+			if !ok {
+				panic(r)
+			}
+			err = badArgument
+		}
+	}()
+	link()
+	return nil
 }
 
 func (e *executor) processSteps(
